@@ -163,6 +163,33 @@ theorem step_progress (r : Bool) (key : Nat → Nat) (s : St) (t : Nat) :
     · exact ⟨idx (key t) s.table, by simp [St.set]⟩
     · exact ⟨s.table.length, by simp⟩
 
+/-! ## the observation checker -/
+
+theorem consistent_iff (obs : List (Nat × Nat)) :
+    consistent obs = true ↔ ∀ p ∈ obs, ∀ q ∈ obs, (p.1 = q.1 ↔ p.2 = q.2) := by
+  unfold consistent
+  simp only [List.all_eq_true, beq_iff_eq, decide_eq_decide]
+
+theorem mem_observations {key : Nat → Nat} {s : St} {ts : List Nat} {p : Nat × Nat}
+    (h : p ∈ observations key s ts) : ∃ t, s.pc t = .done p.2 ∧ key t = p.1 := by
+  unfold observations at h
+  rw [List.mem_filterMap] at h
+  obtain ⟨t, _, ht⟩ := h
+  refine ⟨t, ?_⟩
+  cases hpc : s.pc t with
+  | start => rw [hpc] at ht; cases ht
+  | missed => rw [hpc] at ht; cases ht
+  | done i => rw [hpc] at ht; cases ht; exact ⟨rfl, rfl⟩
+
+theorem good_consistent {key : Nat → Nat} {s : St} (h : Good key s) (ts : List Nat) :
+    consistent (observations key s ts) = true := by
+  rw [consistent_iff]
+  intro p hp q hq
+  obtain ⟨t, htd, htk⟩ := mem_observations hp
+  obtain ⟨u, hud, huk⟩ := mem_observations hq
+  rw [← htk, ← huk]
+  exact good_injective h htd hud
+
 /-! ## per-runtime resolution is isolated -/
 
 theorem own_resolution_alone (rt ty : Nat) : ∀ evs : List RegEv,
